@@ -165,9 +165,12 @@ def canon_tree(t, code):
     return "a%d/%d(%s)" % (t[1], t[2], " ".join(canon_tree(c, code) for c in t[3]))
 
 
-def rule_line(r):
+def rule_line(r, null_empty=False):
     an = "-" if r["an"] == 0 else "a%d" % r["an"]
     tr = ["N" if e == 0 else str(e - 1) for e in r["t"]]
+    if null_empty and not tr:
+        # an empty translation handed over as a NULL pointer instead of an empty array (the harness passes NULL for a count of -1)
+        return " ".join(["R", tname(r["l"]), an, str(r["c"]), str(len(r["r"]))] + [tname(s) for s in r["r"]] + ["-1"])
     # no empty fields: the harness splits at single blanks (an empty right-hand side used to shift the translation count)
     return " ".join(["R", tname(r["l"]), an, str(r["c"]), str(len(r["r"]))] + [tname(s) for s in r["r"]] + [str(len(tr))] + tr)
 
